@@ -201,8 +201,11 @@ type (
 		Event string
 		Args  []Arg
 	}
-	Panic   struct{ Msg string }
-	Destroy struct{ E Expr }
+	// FuncStmt is an inner function declaration `fun name(..): T { .. }`; the
+	// name is bound to the function value (called with CallVal{F: Var{name}}).
+	FuncStmt struct{ Decl *FuncDecl }
+	Panic    struct{ Msg string }
+	Destroy  struct{ E Expr }
 	// StorageSave is acct.storage.save(Value, to: /storage/Path)
 	StorageSave struct {
 		Value Expr
@@ -225,6 +228,7 @@ func (Break) isStmt()       {}
 func (Continue) isStmt()    {}
 func (Emit) isStmt()        {}
 func (Panic) isStmt()       {}
+func (FuncStmt) isStmt()    {}
 func (Destroy) isStmt()     {}
 func (StorageSave) isStmt() {}
 
